@@ -35,15 +35,15 @@ Lemma phaseA4_inner_spec c n A0 (F : list Z) : forall fuel a l a' r,
   acc_inv n A0 a'
   /\ (if r then a_need a' < 1 else 1 <= a_need a')
   /\ NoDup F /\ incl F (ids (a_alloc a'))
-  /\ (0 < cpc (c_topo c) -> (cpc (c_topo c) | a_need a) -> (cpc (c_topo c) | lenZ l) ->
-      if r then a_need a' = 0 else (cpc (c_topo c) | a_need a')).
+  /\ (0 < cpc (c_topo c) -> cpc (c_topo c) <= a_need a -> (cpc (c_topo c) | lenZ l) ->
+      r = true -> a_need a' = 0).
 Proof.
   set (k := cpc (c_topo c)).
   induction fuel as [|f IH]; intros a l a' r H Hinv Hn Hnd Hinc; cbn [phaseA4_inner] in H.
   - inversion H; subst. apply NoDup_app_inv in Hnd. destruct Hnd as [_ [HF _]].
-    splits; auto. intros x Hx. apply Hinc. apply in_or_app. right. exact Hx.
+    splits; auto; try discriminate. intros x Hx. apply Hinc. apply in_or_app. right. exact Hx.
   - destruct l as [|x0 l0].
-    + inversion H; subst. cbn [app] in *. splits; auto.
+    + inversion H; subst. cbn [app] in *. splits; auto; discriminate.
     + fold k in H. set (l := x0 :: l0) in *.
       pose proof (NoDup_app_inv _ _ Hnd) as [Hl [HF Hd]].
       assert (Hg : good a (firstnZ k l)).
@@ -61,30 +61,29 @@ Proof.
         intros x Hx. apply Hd. eapply skipn_In. exact Hx. }
       assert (HincF : incl F (ids (a_alloc (acc_take c a (firstnZ k l))))).
       { intros x Hx. apply Hinc'. apply in_or_app. right. exact Hx. }
-      (* alignment facts *)
-      assert (Hal : 0 < k -> (k | a_need a) -> (k | lenZ l) ->
-                    lenZ (firstnZ k l) = k /\ (k | a_need (acc_take c a (firstnZ k l)))
+      (* a whole core is still needed and the list is made of whole cores *)
+      assert (Hal : 0 < k -> k <= a_need a -> (k | lenZ l) ->
+                    lenZ (firstnZ k l) = k
                     /\ 0 <= a_need (acc_take c a (firstnZ k l))
                     /\ (k | lenZ (skipnZ k l))).
-      { intros Hk Hdn Hdl.
+      { intros Hk Hkn Hdl.
         assert (Hll : 1 <= lenZ l) by (unfold l; rewrite lenZ_cons; pose proof (lenZ_nonneg l0); lia).
         pose proof (divide_ge k _ Hk Hll Hdl) as Hkl.
-        pose proof (divide_ge k _ Hk Hn Hdn) as Hkn.
         assert (Hf : lenZ (firstnZ k l) = k) by (apply firstnZ_length; lia).
         rewrite acc_take_need, Hf. splits; auto.
-        - apply Z.divide_sub_r; [exact Hdn|apply Z.divide_refl].
         - lia.
         - rewrite lenZ_skipnZ by lia. apply Z.divide_sub_r; [exact Hdl|apply Z.divide_refl]. }
       destruct (satisfied (acc_take c a (firstnZ k l))) eqn:Es.
       * inversion H; subst. apply satisfied_spec in Es. splits; auto.
-        intros Hk Hdn Hdl. destruct (Hal Hk Hdn Hdl) as [_ [_ [H0 _]]]. lia.
+        intros Hk Hkn Hdl _. destruct (Hal Hk Hkn Hdl) as [_ [H0 _]]. lia.
       * pose proof (not_satisfied _ Es) as Hs.
         destruct (negb (needs (acc_take c a (firstnZ k l)) k)) eqn:En.
-        -- inversion H; subst. splits; auto.
-           intros Hk Hdn Hdl. destruct (Hal Hk Hdn Hdl) as [_ [H1 _]]. exact H1.
+        -- inversion H; subst. splits; auto. intros _ _ _ Hr. discriminate.
         -- destruct (IH _ _ _ _ H Hinv' Hs Hnd' Hinc') as [I1 [I2 [I3 [I4 I5]]]].
            splits; auto.
-           intros Hk Hdn Hdl. destruct (Hal Hk Hdn Hdl) as [_ [H1 [_ H3]]]. apply I5; assumption.
+           intros Hk Hkn Hdl Hr. destruct (Hal Hk Hkn Hdl) as [_ [_ H3]].
+           apply negb_false_iff in En. unfold needs in En. apply Z.leb_le in En.
+           apply I5; assumption.
 Qed.
 
 (* ------------------------------------------------------------------ phase A.4 (socket loop) *)
@@ -94,22 +93,24 @@ Lemma phaseA4_spec c n A0 : forall socks a a' r,
   NoDup (concat socks) -> incl (concat socks) (ids (a_alloc a)) ->
   acc_inv n A0 a'
   /\ (if r then a_need a' < 1 else 1 <= a_need a')
-  /\ (0 < cpc (c_topo c) -> (cpc (c_topo c) | a_need a) ->
+  /\ (0 < cpc (c_topo c) ->
       (forall l, In l socks -> (cpc (c_topo c) | lenZ l)) ->
       r = true -> a_need a' = 0).
 Proof.
   induction socks as [|l t IH]; intros a a' r H Hinv Hn Hnd Hinc; cbn [phaseA4] in H.
-  - inversion H; subst. splits; auto. intros _ _ _ Hr. discriminate.
-  - destruct (phaseA4_inner c (length l) a l) as [a1 r1] eqn:E.
+  - inversion H; subst. splits; auto. intros _ _ Hr. discriminate.
+  - destruct (negb (needs a (cpc (c_topo c)))) eqn:Eg.
+    { inversion H; subst. splits; auto. intros _ _ Hr. discriminate. }
+    apply negb_false_iff in Eg. unfold needs in Eg. apply Z.leb_le in Eg.
+    destruct (phaseA4_inner c (length l) a l) as [a1 r1] eqn:E.
     cbn [concat] in Hnd, Hinc.
     destruct (phaseA4_inner_spec c n A0 (concat t) _ _ _ _ _ E Hinv Hn Hnd Hinc) as [I1 [I2 [I3 [I4 I5]]]].
     destruct r1.
     + inversion H; subst. splits; auto.
-      intros Hk Hdn Hall _. apply (I5 Hk Hdn). apply Hall. left. reflexivity.
+      intros Hk Hall _. apply (I5 Hk Eg); [apply Hall; left; reflexivity|reflexivity].
     + destruct (IH _ _ _ H I1 I2 I3 I4) as [J1 [J2 J3]].
-      splits; auto. intros Hk Hdn Hall Hr. apply J3; auto.
-      * apply (I5 Hk Hdn). apply Hall. left. reflexivity.
-      * intros l0 Hl0. apply Hall. right. exact Hl0.
+      splits; auto. intros Hk Hall Hr. apply J3; auto.
+      intros l0 Hl0. apply Hall. right. exact Hl0.
 Qed.
 
 (* ------------------------------------------------------------------ lengths of full-core lists *)
@@ -147,7 +148,7 @@ Lemma phaseA_spec c n A0 a a' r :
   acc_inv n A0 a -> 1 <= a_need a ->
   acc_inv n A0 a'
   /\ (if r then a_need a' < 1 else 1 <= a_need a')
-  /\ (0 < cpc (c_topo c) -> (cpc (c_topo c) | a_need a) -> r = true -> a_need a' = 0).
+  /\ (0 < cpc (c_topo c) -> r = true -> a_need a' = 0).
 Proof.
   intros H Hinv Hn. pose proof Hinv as [_ [Halloc _]]. unfold phaseA in H.
   set (T := c_topo c) in *.
@@ -190,9 +191,9 @@ Proof.
     assert (Hinc4 : incl (concat us) (ids (a_alloc a1))).
     { intros x Hx. apply I4. eapply Permutation_in; [apply concat_perm; exact Hperm2|exact Hx]. }
     destruct (phaseA4_spec c n A0 _ _ _ _ H I1 I2 Hnd4 Hinc4) as [J1 [J2 J3]].
-    splits; auto. intros Hk Hdn Hr. apply J3; [exact Hk|exact (I6 _ Hdn Hdiv_socks)| |exact Hr].
+    splits; auto. intros Hk Hr. apply J3; [exact Hk| |exact Hr].
     intros l Hl. apply (Permutation_in _ Hperm2) in Hl. destruct (I5 l Hl) as [[]|Hx]. apply Hdiv_socks. exact Hx.
-  - inversion H; subst. splits; auto. intros _ _ Hr. discriminate.
+  - inversion H; subst. splits; auto. intros _ Hr. discriminate.
 Qed.
 
 (* ------------------------------------------------------------------ phase B *)
@@ -320,7 +321,7 @@ Lemma take_cpus_acc_spec c avail allocated n bind a :
   take_cpus_acc c avail allocated n bind = Some a ->
   NoDup (a_res a) /\ incl (a_res a) (map cid (filter (fun x => memZ (cid x) avail) (c_topo c)))
   /\ lenZ (a_res a) + a_need a = n /\ a_need a < 1
-  /\ (((bind =? 1) = true -> (cpc (c_topo c) | n)) -> lenZ (a_res a) = Z.max 0 n).
+  /\ lenZ (a_res a) = Z.max 0 n.
 Proof.
   intros HT H. unfold take_cpus_acc in H.
   destruct (new_acc_inv c avail allocated n HT) as [N1 [N2 [N3 [N4 [N5 [N6 N7]]]]]].
@@ -331,7 +332,7 @@ Proof.
   assert (Hn0 : a_need a0 = n) by reflexivity.
   destruct (satisfied a0) eqn:Es.
   { inversion H; subst a. apply satisfied_spec in Es. splits; auto; try lia;
-      try (intros _; change (a_res a0) with (@nil Z); cbn; lia). }
+      try (change (a_res a0) with (@nil Z); cbn; lia). }
   pose proof (not_satisfied _ Es) as Hn.
   destruct (lenZ (a_alloc a0) <? a_need a0) eqn:Ef; [discriminate|]. apply Z.ltb_ge in Ef.
   assert (Hinv : acc_inv n A0 a0) by (unfold acc_inv; splits; auto).
@@ -340,17 +341,15 @@ Proof.
   pose proof (cpc_pos _ Hne) as Hk.
   destruct (if (bind =? 1) || (cpc (c_topo c) =? 1) then phaseA c a0 else (a0, false)) as [a1 r] eqn:EA.
   assert (HA : acc_inv n A0 a1 /\ (if r then a_need a1 < 1 else 1 <= a_need a1)
-               /\ (((bind =? 1) = true -> (cpc (c_topo c) | n)) -> r = true -> a_need a1 = 0)).
+               /\ (r = true -> a_need a1 = 0)).
   { destruct ((bind =? 1) || (cpc (c_topo c) =? 1)) eqn:Eb.
     - destruct (phaseA_spec c n A0 _ _ _ EA Hinv Hn) as [I1 [I2 I3]]. splits; auto.
-      intros Hal Hr. apply I3; [lia| |exact Hr]. rewrite Hn0.
-      destruct (bind =? 1) eqn:Eb1; [apply Hal; reflexivity|].
-      cbn [orb] in Eb. apply Z.eqb_eq in Eb. rewrite Eb. apply Z.divide_1_l.
-    - injection EA as Ea Er. subst a1 r. splits; auto. intros _ Hr. discriminate. }
+      intros Hr. apply I3; [lia|exact Hr].
+    - injection EA as Ea Er. subst a1 r. splits; auto. intros Hr. discriminate. }
   destruct HA as [I1 [I2 I3]].
   destruct r.
   { inversion H; subst a. pose proof I1 as [R1 [_ [_ [R4 [_ [R6 _]]]]]].
-    splits; auto. intros Hal. pose proof (I3 Hal eq_refl). lia. }
+    pose proof (I3 eq_refl). splits; auto. lia. }
   assert (HB : forall a2, (if bind =? 1 then None else phaseB c a1) = Some a2 ->
                           acc_inv n A0 a2 /\ a_need a2 = 0).
   { intros a2 HB. destruct (bind =? 1); [discriminate|]. eapply phaseB_spec; eauto. }
